@@ -81,6 +81,14 @@ def all_harnesses():
         for di, dr in enumerate(([0, 0, 0], [cap, 0, 1, cap])):
             hs.append(Harness(f"c09_csrc_c{cap}_d{di}", f"crate::c09::constant_source({cap}, {rl(dr)})", unwind=12, unit="ConstantSource::work verdict",
                               shape={"block": "ConstantSource", "cap": cap, "drains": dr}, core=(cap == 2), timeout=900))
+    for (cap_in, cap_out) in ((2, 3), (1, 5)):
+        for si, (s, desc) in enumerate((([(0, 0)], "header not started, no input"), ([(1, 0), (0, 0)], "output full while the header is pending"),
+                                        ([(1, 0), (0, cap_out), (0, 0)], "header continues after draining"), ([(2, 0), (0, 1)], "one free output byte"))):
+            for gone in (False, True):
+                hs.append(Harness(f"c09_auenc_i{cap_in}o{cap_out}_s{si}_{'gone' if gone else 'alive'}",
+                                  f"crate::c09::au_encode(2, {cap_in}, {cap_out}, {rs_sched(s)}, {str(gone).lower()})", unwind=34,
+                                  unit="AuEncode::work verdict", timeout=1500,
+                                  shape={"block": "AuEncode", "cap_in": cap_in, "cap_out": cap_out, "situation": desc, "upstream_gone": gone}, core=False))
     for cap in (2, 3):
         for (l1, l2) in ((cap, 1), (1, cap), (cap + 1, 1), (2, 2)):
             for di, dr in enumerate(([0, 0, 0], [0, 1, 0, cap])):
